@@ -187,7 +187,7 @@ class MapGen:
         sw_names = {i: sref(True) for i in rng.sample(range(12) if rng.random() < 0.5 else range(256), rng.randrange(0, 5))}
         swnm = b"".join(struct.pack("<I", sw_names.get(i, 0)) for i in range(256))
         # ---- WAV
-        wav_ids = {i: sref(True) for i in rng.sample(range(512), rng.randrange(0, 4))}
+        wav_ids = {i: sref(True) for i in rng.sample(range(8) if rng.random() < 0.6 else range(512), rng.randrange(0, 5))}   # sparse, often among the lowest slots
         wav = b"".join(struct.pack("<I", wav_ids.get(i, 0)) for i in range(512))
         # ---- UNIS / UNIx
         quiet_weapons = rng.random() < 0.7 or self.force_quiet  # most editor-form maps leave weapons no unit carries at 0
@@ -211,6 +211,10 @@ class MapGen:
         # ---- TRIG
         ntrig = rng.choice([0, 1, 2, 4])
         trigs = [self.gen_trigger(form, locs, cu, by_text, texts) for _ in range(ntrig)]
+        if trigs and rng.random() < 0.3:
+            # value-identical triggers (stacked "hyper triggers") are ordinary map content
+            k = rng.randrange(len(trigs))
+            trigs.insert(rng.randrange(len(trigs) + 1), dict(trigs[k]))
         trig = refchk.build(L[b"TRIG"], {"triggers": trigs})
         chunks = [(b"VER ", struct.pack("<H", 205)), (b"STR ", str_payload), (b"MRGN", mrgn), (b"TRIG", trig)]
         chunks.append((b"UNIS", units(100)) if rng.random() < 0.5 else (b"UNIx", units(130)))
